@@ -77,14 +77,18 @@ type Conn struct {
 	nread       int // Read calls that have returned
 	nreadBeg    int // Read calls entered
 
-	nwrite    int
-	inWrite   int // transport Write calls in flight
-	maxWrite  int // max concurrent transport writes ever observed
-	OnWrite   func(k int, b []byte) WriteOutcome
-	OnReadRet func(k int, n int, err error) // called after a Read returned, outside the lock (scheduler gate)
-	out       []byte
-	events    []Event
-	closeCh   chan struct{}
+	nwrite   int
+	inWrite  int // transport Write calls in flight
+	maxWrite int // max concurrent transport writes ever observed
+	// NewestFirst: when several Read calls are parked at once (a library that reads one transport from two
+	// goroutines), arriving data goes to the call that was made last; the others keep waiting (a legal schedule)
+	NewestFirst bool
+	parked      map[int]bool
+	OnWrite     func(k int, b []byte) WriteOutcome
+	OnReadRet   func(k int, n int, err error) // called after a Read returned, outside the lock (scheduler gate)
+	out         []byte
+	events      []Event
+	closeCh     chan struct{}
 }
 
 var connID int64
@@ -145,8 +149,30 @@ func (c *Conn) FeedErr(err error) {
 func (c *Conn) Read(p []byte) (int, error) {
 	c.mu.Lock()
 	c.nreadBeg++
+	ticket := c.nreadBeg
 	expired := func() bool { return !c.rdl.IsZero() && !time.Now().Before(c.rdl) }
-	for len(c.in) == 0 && c.inErr == nil && !c.closed && !expired() {
+	newer := func() bool {
+		if !c.NewestFirst {
+			return false
+		}
+		for t := range c.parked {
+			if t > ticket {
+				return true
+			}
+		}
+		return false
+	}
+	if c.parked == nil {
+		c.parked = map[int]bool{}
+	}
+	c.parked[ticket] = true
+	defer func() {
+		c.mu.Lock()
+		delete(c.parked, ticket)
+		c.cond.Broadcast()
+		c.mu.Unlock()
+	}()
+	for ((len(c.in) == 0 && c.inErr == nil) || (newer() && c.inErr == nil)) && !c.closed && !expired() {
 		c.blocked++
 		c.obs.Broadcast() // wake WaitReaderBlocked
 		if c.rdl.IsZero() {
